@@ -1,5 +1,6 @@
 /-!
-# Model of covert-address admission (pkg/station/lib/registration_config.go, registration_ingest.go, proxies.go)
+# Model of covert-address admission (pkg/station/lib/registration_config.go, registration_ingest.go,
+# registration.go, proxies.go)
 
 `ParseOrResolveBlocklisted` is mirrored branch by branch.  Every standard-library call it makes is an
 *oracle*: the case carries the answer the real call gave, in its real result shape —
@@ -7,11 +8,24 @@
 * `net.ParseIP(provided) != nil`, `net.SplitHostPort(provided)` (error, or host and port),
 * `strconv.ParseUint(port, 10, 16)` succeeded, `net.ParseIP(host) != nil`,
 * `net.ResolveIPAddr("ip", host)`: an error, a nil address, or an `*IPAddr` whose `IP` **may be nil**
-  (that is what the stdlib answers for the empty host), with its zone and its `String()` text,
-* `(*net.IPNet).Contains` and `(*regexp.Regexp).MatchString` as functions of an abstract environment.
+  (that is what the stdlib answers for the empty host) and its zone,
+* `(*net.IPNet).Contains`, `(*regexp.Regexp).MatchString` and `net.IP.String` as functions of an
+  abstract environment.
 
-`net.JoinHostPort` is modelled (brackets iff the host contains a colon).
+The resolver is a **stream of answers** (`Resolver`), one consumed per lookup: a second lookup of the
+same name may be answered differently (names whose answers change between lookups).  Every function
+that can consult the resolver takes the stream and a cursor and returns the new cursor, so "resolved
+once, at admission" is a statement about cursors, not a constant.
+
+`net.JoinHostPort` is modelled (brackets iff the host contains a colon); `IPAddr.String()` is
+`IP.String()` when the zone is empty, else `IP.String() + "%" + zone`.
 The model follows the repaired code: a resolved address without an IP, or with a zone, is rejected.
+
+The second half models the *objects*: a registration is a heap cell with a `Covert` field, the
+registry stores a **pointer** and a `Valid` flag, `ingestRegistration` of several workers runs
+interleaved at the granularity of the code's scheduling points, and `Proxy` hands the `Covert` field of
+the stored object to `net.Dial` (`netDial`: a literal host is connected to directly, anything else is
+resolved — consuming a resolver answer — at dial time).
 -/
 
 namespace CJ.Covert
@@ -28,24 +42,31 @@ structure Policy (Net Pat : Type) where
   enableAllow : Bool
   domains : List Pat
 
-/-- the two library predicates the policy is evaluated with -/
+/-- the library functions the policy is evaluated with and the result is rendered with -/
 structure Env (Net Pat IP : Type) where
   contains : Net → IP → Bool          -- (*net.IPNet).Contains(ip), ip non-nil
   matchString : Pat → String → Bool   -- (*regexp.Regexp).MatchString(host)
+  ipText : IP → String                -- net.IP.String()
 
 /-- result shape of `net.ResolveIPAddr("ip", host)` -/
 inductive Resolved (IP : Type)
-  | err                                                    -- (nil, err)
-  | nilAddr                                                -- (nil, nil)
-  | addr (ip : Option IP) (zone : String) (text : String)  -- *IPAddr; `ip = none` is a nil `IP`; text = addr.String()
+  | err                                    -- (nil, err)
+  | nilAddr                                -- (nil, nil)
+  | addr (ip : Option IP) (zone : String)  -- *IPAddr; `ip = none` is a nil `IP`
 
-/-- what the standard library answered for one `provided` string -/
-structure Answers (IP : Type) where
+/-- the resolver: the `n`-th lookup is answered `rs n` (answers may change between lookups) -/
+abbrev Resolver (IP : Type) := Nat → Resolved IP
+
+/-- `IPAddr.String()` of an address with an IP -/
+def addrText {Net Pat IP : Type} (env : Env Net Pat IP) (ip : IP) (zone : String) : String :=
+  if zone = "" then env.ipText ip else env.ipText ip ++ "%" ++ zone
+
+/-- what the standard library answered about one `provided` string (everything but the resolution) -/
+structure Answers where
   providedIsIP : Bool                    -- net.ParseIP(provided) != nil
   split : Option (String × String)       -- net.SplitHostPort(provided): none = error
   portOk : Bool                          -- strconv.ParseUint(port, 10, 16) returned no error
   hostIsIP : Bool                        -- net.ParseIP(host) != nil
-  resolved : Resolved IP                 -- net.ResolveIPAddr("ip", host) — the single resolution
 
 variable {Net Pat IP : Type}
 
@@ -61,41 +82,129 @@ def isBlocklistedCovertDomain (env : Env Net Pat IP) (pol : Policy Net Pat) (hos
 structure Result where
   out : String        -- "" = rejected
   lookup : Bool       -- the station resolved a name (statistics only)
-  resolverCalls : Nat -- how many times the resolver was consulted
+  cursor : Nat        -- the resolver cursor after the call
 deriving Repr, DecidableEq
 
-/-- `ParseOrResolveBlocklisted` -/
-def parseOrResolve (env : Env Net Pat IP) (pol : Policy Net Pat) (a : Answers IP) : Result :=
-  if a.providedIsIP then ⟨"", false, 0⟩ else       -- an address without a port
+/-- `ParseOrResolveBlocklisted`, with the resolver `rs` at cursor `n` -/
+def parseOrResolve (env : Env Net Pat IP) (pol : Policy Net Pat) (a : Answers) (rs : Resolver IP) (n : Nat) :
+    Result :=
+  if a.providedIsIP then ⟨"", false, n⟩ else       -- an address without a port
   match a.split with
-  | none => ⟨"", false, 0⟩
+  | none => ⟨"", false, n⟩
   | some (host, port) =>
-    if isBlocklistedCovertDomain env pol host then ⟨"", false, 0⟩ else
-    if !a.portOk then ⟨"", false, 0⟩ else
+    if isBlocklistedCovertDomain env pol host then ⟨"", false, n⟩ else
+    if !a.portOk then ⟨"", false, n⟩ else
     let lookup := !a.hostIsIP
-    match a.resolved with
-    | .err => ⟨"", lookup, 1⟩
-    | .nilAddr => ⟨"", lookup, 1⟩
-    | .addr none _ _ => ⟨"", lookup, 1⟩                  -- no IP (empty host)
-    | .addr (some ip) zone text =>
-      if isBlocklistedCovertAddr env pol ip then ⟨"", lookup, 1⟩
-      else if zone ≠ "" then ⟨"", lookup, 1⟩             -- zone: the text would not be a plain literal
-      else ⟨joinHostPort text port, lookup, 1⟩
+    match rs n with                                      -- net.ResolveIPAddr: the one lookup
+    | .err => ⟨"", lookup, n + 1⟩
+    | .nilAddr => ⟨"", lookup, n + 1⟩
+    | .addr none _ => ⟨"", lookup, n + 1⟩                -- no IP (empty host)
+    | .addr (some ip) zone =>
+      if isBlocklistedCovertAddr env pol ip then ⟨"", lookup, n + 1⟩
+      else if zone ≠ "" then ⟨"", lookup, n + 1⟩         -- zone: the text would not be a plain literal
+      else ⟨joinHostPort (addrText env ip zone) port, lookup, n + 1⟩
 
-/-- the part of a registration this property is about -/
-structure Reg where
-  covert : String
+/-! ## the dial: `net.Dial("tcp", s)` -/
+
+/-- the two standard-library functions `net.Dial` applies to its argument before it connects -/
+structure DialLib (IP : Type) where
+  splitHostPort : String → Option (String × String)   -- net.SplitHostPort
+  parseIP : String → Option IP                        -- the literal fast path (no zone)
+
+/-- what `net.Dial("tcp", s)` connects to -/
+inductive Dialed (IP : Type)
+  | bad                                         -- the string does not split into host and port
+  | literal (ip : IP) (port : String)           -- a literal: connected to as is, no resolver involved
+  | resolved (r : Resolved IP) (port : String)  -- a name: whatever the resolver answers *now*
+
+/-- `net.Dial`: returns what is connected to and the resolver cursor afterwards -/
+def netDial (L : DialLib IP) (s : String) (rs : Resolver IP) (n : Nat) : Dialed IP × Nat :=
+  match L.splitHostPort s with
+  | none => (.bad, n)
+  | some (host, port) =>
+    match L.parseIP host with
+    | some ip => (.literal ip port, n)
+    | none => (.resolved (rs n) port, n + 1)
+
+/-! ## objects, the registry entry, interleaved ingest workers -/
+
+/-- program counter of one `ingestRegistration` call, at the scheduling points of the code -/
+inductive PC
+  | start | afterExists (dup : Bool) | afterTrack | beforeRegister | done
+deriving DecidableEq, Repr
+
+/-- the registry entry of the one key all workers of a run compete for: **which object** is stored
+(`r.decoys[phantom][identifier]` is a pointer) and its `Valid` flag -/
+structure Entry where
+  ptr : Nat
   valid : Bool
-deriving Repr, DecidableEq
+deriving DecidableEq, Repr
 
-/-- the covert step of `ingestRegistration`: a rejected covert drops the registration before it can
-become valid; otherwise `reg.Covert` is overwritten with the resolved literal (the later admission
-steps, which never touch `Covert` again, are C07's). -/
-def ingestCovert (env : Env Net Pat IP) (pol : Policy Net Pat) (reg : Reg) (a : Answers IP) : Option Reg :=
-  let r := parseOrResolve env pol a
-  if r.out = "" then none else some { reg with covert := r.out, valid := true }
+/-- Worker `i` ingests its own freshly parsed registration object `i`. -/
+structure World where
+  covertOf : Nat → String      -- the `Covert` field of object `i` (initially the client's raw string)
+  pc : Nat → PC
+  store : Option Entry
+  cursor : Nat                 -- resolver cursor (shared: one resolver for the process)
 
-/-- `Proxy`: `net.Dial("tcp", reg.Covert)` — the stored string, verbatim, no resolver involved here -/
-def proxyDial (reg : Reg) : String := reg.covert
+/-- per-worker inputs: the library's answers about worker `i`'s raw covert string, and whether the
+later admission steps (liveness, phantom blocklist: C07) let the registration pass -/
+structure Inputs where
+  ans : Nat → Answers
+  passes : Nat → Bool
+
+def updateAt {α : Type} (f : Nat → α) (i : Nat) (v : α) : Nat → α := fun j => if j = i then v else f j
+
+/-- `RegisteredDecoys.register(d)` for worker `i`'s object: track it if nothing is tracked; an entry
+that is already valid stays as it is (announced once); otherwise the entry is validated **with `d` as
+the stored object** — `d` is the object whose `Covert` passed the checks of this worker's ingest (the
+repaired code replaces a copy that another worker tracked first). -/
+def registerStep (st : Option Entry) (i : Nat) : Option Entry :=
+  match st with
+  | none => some ⟨i, true⟩
+  | some e => if e.valid then some e else some ⟨i, true⟩
+
+/-- one step of worker `i` (one segment between two scheduling points of `ingestRegistration`) -/
+def step (env : Env Net Pat IP) (pol : Policy Net Pat) (inp : Inputs) (rs : Resolver IP) (w : World) (i : Nat) :
+    World :=
+  match w.pc i with
+  | .start =>                       -- ValidateRegistration; RegistrationExists
+    { w with pc := updateAt w.pc i (.afterExists w.store.isSome) }
+  | .afterExists true =>            -- duplicate path: TrackRegistration bumps the counter; return
+    { w with pc := updateAt w.pc i .done }
+  | .afterExists false =>           -- TrackRegistration: stores this object unless one is stored
+    { w with pc := updateAt w.pc i .afterTrack,
+             store := match w.store with | none => some ⟨i, false⟩ | some e => some e }
+  | .afterTrack =>                  -- covert policy; overwrite of this object's Covert; C07's later steps
+    let r := parseOrResolve env pol (inp.ans i) rs w.cursor
+    if r.out = "" then { w with pc := updateAt w.pc i .done, cursor := r.cursor }
+    else if !inp.passes i then
+      { w with pc := updateAt w.pc i .done, cursor := r.cursor, covertOf := updateAt w.covertOf i r.out }
+    else
+      { w with pc := updateAt w.pc i .beforeRegister, cursor := r.cursor, covertOf := updateAt w.covertOf i r.out }
+  | .beforeRegister =>              -- AddRegistration → register
+    { w with pc := updateAt w.pc i .done, store := registerStep w.store i }
+  | .done => w
+
+/-- a schedule: which worker runs its next segment -/
+def runSched (env : Env Net Pat IP) (pol : Policy Net Pat) (inp : Inputs) (rs : Resolver IP) (w : World) :
+    List Nat → World
+  | [] => w
+  | i :: rest => runSched env pol inp rs (step env pol inp rs w i) rest
+
+/-- before any worker ran: every object holds its client's raw covert string, nothing is tracked -/
+def World.init (raw : Nat → String) (cursor : Nat) : World :=
+  { covertOf := raw, pc := fun _ => .start, store := none, cursor := cursor }
+
+/-- the string a connection handler hands to `net.Dial` for a registration returned by
+`GetRegistrations` (valid entries only): the `Covert` field of the stored object -/
+def World.dialString (w : World) : Option String :=
+  match w.store with
+  | some e => if e.valid then some (w.covertOf e.ptr) else none
+  | none => none
+
+/-- `Proxy`: `net.Dial("tcp", reg.Covert)` on the stored object -/
+def World.proxyDial (L : DialLib IP) (rs : Resolver IP) (w : World) : Option (Dialed IP × Nat) :=
+  w.dialString.map fun s => netDial L s rs w.cursor
 
 end CJ.Covert
